@@ -18,6 +18,7 @@ mod c07;
 mod c08;
 mod c09;
 mod c13;
+mod gen_many;
 mod c15;
 mod c16;
 mod c18;
